@@ -31,6 +31,7 @@ class Ring:
         self.name = name
         self.cancelled_constants = set()
         self.n_decisions = 0
+        self.id_timeout_ms = 20000
         self.order_fork = False
         self.order_lits = []
         self.max_decisions = 20000
@@ -146,10 +147,11 @@ class Ring:
             memo[i] = v
         return memo[t.get_id()]
 
-    def is_identically_zero(self, t, timeout_ms=20000):
+    def is_identically_zero(self, t, timeout_ms=None):
         """Decide t == 0 (mod m) as an identity.  Returns "zero" | "nonzero" | "unknown".
         zero: the identity tactic (sum-of-monomials normal form, then smt) answers unsat.
         nonzero: the solver finds the formula satisfiable at a pinned integer point."""
+        timeout_ms = timeout_ms or self.id_timeout_ms
         t = self._apply_subst(t)
         if z3.is_int_value(t):
             v = t.as_long()
